@@ -101,7 +101,14 @@ class C15Monitor(object):
                 cov = sklearn.covariance.ledoit_wolf(rets[list(ws.index)])[0]
                 x = ws.to_numpy()
                 rc = x * cov.dot(x)
-                if rc.sum() > 0 and (rc.max() - rc.min()) / rc.sum() > 2e-3:
+                budget = kw.get("risk_weights")
+                if budget is not None:
+                    # budget[i] belongs to the i-th name of the selection
+                    b = np.array([budget[sel.index(k)] for k in ws.index], dtype=float)
+                    b = b / b.sum()
+                    if rc.sum() > 0 and np.abs(rc / rc.sum() - b).max() > 5e-3:
+                        bad("risk contributions must follow the risk budget %s in the order of the selection %s (shares %s for %s)" % (budget, sel, (rc / rc.sum()).round(4).tolist(), list(ws.index)), relation="erc_budget")
+                elif rc.sum() > 0 and (rc.max() - rc.min()) / rc.sum() > 2e-3:
                     bad("risk contributions must be equal under the same covariance estimator (%s)" % (rc / rc.sum()).tolist(), relation="erc")
             else:
                 lo, hi = kw.get("bounds", (0.0, 1.0))
